@@ -303,6 +303,20 @@ class C11(Prop):
             if not within_bound(s):
                 continue  # gluing tokens produced an exponent of > 3 digits or a power of > 2 digits
             out.append(Case("query " + C.hexs(s), "soup", s))
+        # every string of up to three symbols over an alphabet that mixes one- and multi-byte
+        # characters with every token class (slicing by byte offsets goes wrong only when a
+        # multi-byte character sits at a particular distance from a token boundary)
+        alpha = ["1", "a", "t", "o", "C", "°", " ", "+", "-", "*", "/", "^", "(", ")", ",", ".", "e", "%", "{", "}", "m", "K", "é", "\u2003", "'"]
+        import itertools as _it
+        for k in (1, 2, 3):
+            for tup in _it.product(alpha, repeat=k):
+                s = "".join(tup)
+                if within_bound(s):
+                    out.append(Case("query " + C.hexs(s), f"short-{k}", s))
+        for w in ("C°", "t°", "a°", "to°", "°to", "t°o", "m°", "K°"):
+            for pre in ("", "1 ", "20 ", "1m to ", "(", "1 + "):
+                for post in ("", " ", " b", ")", " * 3", "^2"):
+                    out.append(Case("query " + C.hexs(pre + w + post), "degree-words", pre + w + post))
         for _ in range(n // 4):
             k = rng.range(1, 30)
             s = "".join(chr(rng.choice([rng.range(32, 126), rng.range(0xA0, 0x2FF), rng.range(0x2000, 0x206F), rng.range(0x3000, 0x303F), rng.range(0x1F600, 0x1F64F)])) for _ in range(k))
